@@ -217,6 +217,10 @@ func unmarshalMap(buf []byte, ety cty.Type, path cty.Path) (cty.Value, error) {
 			if err != nil {
 				return cty.NilVal, path.NewErrorf("failed to read map key: %s", err)
 			}
+			// Map keys are normalized strings, so two spellings of one key
+			// are the same key here, the later one taking precedence as
+			// for any other repeated key.
+			k = cty.NormalizeString(k)
 
 			path[len(path)-1] = cty.IndexStep{
 				Key: cty.StringVal(k),
